@@ -89,8 +89,12 @@ func Gnm(dst GraphBuilder, n, m int, src rand.Source) error {
 
 	hasEdge := dst.HasEdgeBetween
 	d, isDirected := dst.(graph.Directed)
+	back := 0
 	if isDirected {
-		m /= 2
+		// Add half of the edges, rounded up, forward
+		// and the remaining edges backward.
+		back = m / 2
+		m -= back
 		hasEdge = d.HasEdgeFromTo
 	}
 
@@ -128,7 +132,7 @@ func Gnm(dst GraphBuilder, n, m int, src rand.Source) error {
 	if !isDirected {
 		return nil
 	}
-	for i := 0; i < m; i++ {
+	for i := 0; i < back; i++ {
 		for {
 			v, w := edgeNodesFor(rnd(nChoose2), nodes)
 			if !hasEdge(v.ID(), w.ID()) {
